@@ -456,7 +456,7 @@ theorem readAll_run {K : RCtx} (hK : K.OK) {L P : Bytes} (rest : List HOp) (ws :
           handlerPoll fuel r { ops := .readAll :: rest, sub := sub, writers := ws, propagate := pr } e =
             handlerPoll fuel' r' { ops := rest, sub := .fresh, writers := ws, propagate := pr }
               (e'.ev (rEvent K.C)) ∧
-          fuel ≤ fuel' + N ∧ RSt K L P r' e'.mutex e'.tr K.C K.O ∧ r'.lock = .none ∧ e'.mutex = none ∧
+          fuel + 2 * e'.tr.input.length ≤ fuel' + N ∧ RSt K L P r' e'.mutex e'.tr K.C K.O ∧ r'.lock = .none ∧ e'.mutex = none ∧
           r'.sp.pay = 0 ∧ r'.sp.pad = 0 ∧ r'.sp.raw ++ e'.tr.input = K.U ∧
           (K.final = true → r'.writeable = true) ∧
           e'.segs = e.segs ∧ TStep e.tr e'.tr) := by
@@ -487,7 +487,9 @@ theorem readAll_run {K : RCtx} (hK : K.OK) {L P : Bytes} (rest : List HOp) (ws :
         rcases hor with hor | ⟨a1, a2, a3, a4, a5⟩
         · omega
         · simp only [List.append_nil] at a1 hs'
-          refine ⟨r1, { e with mutex := none, tr := t1 }, f, ?_, by omega, ?_, hlk, rfl, a3, a4, a5, hwr, rfl, s1⟩
+          refine ⟨r1, { e with mutex := none, tr := t1 }, f, ?_,
+            by have := s1.tle.input_len; show f + 1 + 2 * t1.input.length ≤ f + (N + 1); omega,
+            ?_, hlk, rfl, a3, a4, a5, hwr, rfl, s1⟩
           · simp only [a1]
           · rw [← a1, ← a2]; exact hs'
       | succ k' =>
@@ -822,14 +824,14 @@ theorem read_phaseF {K1 K2 : RCtx} (hK1 : K1.OK) (hK2 : K2.OK) (hf : Follows K1 
     (hN : W.N = K2.ectx) (hOt : W.Otot = K1.O ++ K2.O) (hrevs : W.revs = [rEvent K1.C, rEvent K2.C])
     {r : AReq} {h : HState} {e : Run.Env}
     (hr : FRd K1 K2 W r h e) (hb : Ben e.tr)
-    {fuel : Nat} (hfu : K1.cap / 16 + 6 * e.tr.input.length + wcost W.data.length + 24 ≤ fuel) :
+    {fuel : Nat} (hfu : K1.cap / 16 + 3 * e.tr.input.length + wcost W.data.length + 24 ≤ fuel) :
     HOut W (FRd K1 K2 W) e
       (handlerPoll fuel r h e) := by
   have hfin2 : K2.final = true := by simp [RCtx.final, hf.e2, nextInputStream, RT.stdin]
   -- the second `readAll` and what follows
   have second : ∀ (fuel : Nat) (r : AReq) (sub : HSub) (e : Run.Env),
       (∃ dO, RSt K2 W.L1 K1.O r e.mutex e.tr (accOf sub) dO) → rEvent K1.C ∈ e.tr.events → Ben e.tr →
-      K2.cap / 32 + 3 * e.tr.input.length + wcost W.data.length + 12 ≤ fuel →
+      2 * ((K2.C.length - (accOf sub).length) / 64) + 2 * e.tr.input.length + wcost W.data.length + 12 ≤ fuel →
       HOut W (FRd K1 K2 W) e
         (handlerPoll fuel r ⟨.readAll :: oscript W.data W.st, sub, [], true⟩ e) := by
     intro fuel r sub e ⟨dO, hs⟩ hev1 hb hfu
@@ -895,8 +897,12 @@ theorem read_phaseF {K1 K2 : RCtx} (hK1 : K1.OK) (hK2 : K2.OK) (hf : Follows K1 
           exact ⟨this.inv, this.lk, this.mx, this.log⟩⟩
         (by show rEvent K1.C ∈ (e'.tr.events ++ [rEvent K1.C]) ++ ["s=ok"]; simp)
         (hb.step hs1)
-        (by show K2.cap / 32 + 3 * e'.tr.input.length + wcost W.data.length + 12 ≤ f2
-            rw [hf.cap]; omega)
+        (by show 2 * ((K2.C.length - ([] : Bytes).length) / 64) + 2 * e'.tr.input.length + wcost W.data.length + 12 ≤ f2
+            obtain ⟨G2, hi2⟩ := hs2.inv
+            have hrl2 := hi2.rem_le hK2
+            rw [hf.cap] at hrl2
+            simp only [List.length_nil] at hrl2 ⊢
+            omega)
       refine ⟨hs1.trans q1, q2.trans d8, ?_⟩
       rcases q3 with ⟨a1, a2, a3, a4⟩ | a
       · exact Or.inl ⟨a1, a2, by have := hs1.ans_le; omega, a4⟩
@@ -904,6 +910,10 @@ theorem read_phaseF {K1 K2 : RCtx} (hK1 : K1.OK) (hK2 : K2.OK) (hf : Follows K1 
   · obtain ⟨hops, hws, hpr, hrem⟩ := hr
     simp only at hops hpr hws hrem
     subst hops hpr hws
-    exact second fuel r sub e hrem hev1 hb (by rw [hf.cap]; omega)
+    obtain ⟨dO, hs⟩ := hrem
+    obtain ⟨G2, hi2⟩ := hs.inv
+    have hrl2 := hi2.rem_le hK2
+    rw [hf.cap] at hrl2
+    exact second fuel r sub e ⟨dO, hs⟩ hev1 hb (by omega)
 
 end Fcgi.E2E
